@@ -193,6 +193,36 @@ func (c *Chain) EthTx(ctx sdk.Context, a EthTxArgs) ([]byte, *evmtypes.MsgEthere
 	return bz, msg, err
 }
 
+// WrapEthMsgs wraps several signed MsgEthereumTx (possibly of different senders) into one cosmos tx envelope: gas limit
+// and fee of the envelope are the sums over the messages, as the ante handler requires.
+func WrapEthMsgs(txCfg client.TxConfig, msgs ...*evmtypes.MsgEthereumTx) ([]byte, error) {
+	txb := txCfg.NewTxBuilder()
+	var sm []sdk.Msg
+	gas := uint64(0)
+	fee := new(big.Int)
+	for _, m := range msgs {
+		m.From = ""
+		sm = append(sm, m)
+		gas += m.GetGas()
+		fee.Add(fee, m.GetFee())
+	}
+	if err := txb.SetMsgs(sm...); err != nil {
+		return nil, err
+	}
+	option, err := codectypes.NewAnyWithValue(&evmtypes.ExtensionOptionsEthereumTx{})
+	if err != nil {
+		return nil, err
+	}
+	b, ok := txb.(authtx.ExtensionOptionsTxBuilder)
+	if !ok {
+		return nil, fmt.Errorf("no extension builder")
+	}
+	b.SetExtensionOptions(option)
+	txb.SetGasLimit(gas)
+	txb.SetFeeAmount(sdk.Coins{{Denom: utils.BaseDenom, Amount: sdkmath.NewIntFromBigInt(fee)}})
+	return txCfg.TxEncoder()(txb.GetTx())
+}
+
 // WrapEthMsg wraps a signed MsgEthereumTx into the cosmos tx envelope.
 func WrapEthMsg(txCfg client.TxConfig, msg *evmtypes.MsgEthereumTx) ([]byte, error) {
 	txb := txCfg.NewTxBuilder()
